@@ -160,6 +160,12 @@ pub struct Durable {
     pub rewound: bool,
 }
 
+/// RSIM_STRICT=1: stop a history at the first violation of any property (used to attribute process deaths).
+pub fn strict_mode() -> bool {
+    static S: std::sync::OnceLock<bool> = std::sync::OnceLock::new();
+    *S.get_or_init(|| std::env::var("RSIM_STRICT").is_ok())
+}
+
 fn align_up(x: usize, a: usize) -> usize {
     (x + a - 1) & !(a - 1)
 }
@@ -291,11 +297,25 @@ impl<A: Ar> Exec<A> {
                 return;
             }
         }
-        if self.viols.len() < 16 {
+        // keep at most one violation per (property, class) and 24 in total
+        if self.viols.len() < 24 && !self.viols.iter().any(|x| x.prop == prop && x.class == class) {
             self.viols.push(Violation { prop, class, detail, op: self.step });
         }
-        // the shadow model and the arena have diverged: nothing after this point can be judged
-        self.dead = true;
+        // Some violations mean that the shadow model and the arena have diverged so far that the harness
+        // itself could act illegally afterwards (use a range the arena has handed to somebody else, walk a
+        // destroyed list): the history stops there. Accounting / policy / layout violations do not, so that
+        // a check still sees the violations of *its* property that follow.
+        let fatal = match (prop, class) {
+            ("C03", _) | ("C08", _) | ("C10", _) | ("C16", _) | ("C20", _) => false,
+            ("C13", "release_cursor") | ("C13", "release_effect") | ("C13", "refs") | ("C13", "value_drop") | ("C13", "detached_released") | ("C13", "clone_side_effect") => false,
+            ("C04", "error_kind") | ("C04", "error_not_clean") | ("C04", "readonly_alloc") => false,
+            ("C18", "capacity") | ("C18", "refused_fitting") => false,
+            ("C05", "header_changed") | ("C05", "meta_changed") | ("C05", "freelist_changed") | ("C05", "reserved_changed") | ("C05", "bytes_changed") => false,
+            _ => true,
+        };
+        if fatal || strict_mode() {
+            self.dead = true;
+        }
     }
 
     fn mem(&self) -> &'static [u8] {
